@@ -471,11 +471,62 @@ theorem toBody_nodefs {env : SynEnv} : ∀ (bs : List Datum) {m exprs0 D E env'}
       | definition df => exact absurd h₁ (hnd b (List.mem_cons_self ..) m df env₁)
       | _ => cases h₂
 
+/-- a fresh empty child scope does not change what a datum is transformed into -/
+theorem toStatement_child (n : Nat) (d : Datum) (env : SynEnv) :
+    (toStatement n d ([] :: env)).1 = (toStatement n d env).1 := by
+  cases env with
+  | nil => exact (((relAll (R := BotRel) n).stmt d).rel 0 [[]] [] (.inl ⟨rfl, rfl⟩)).1
+  | cons h t => exact (((relAll (R := SqRel t) n).stmt d).rel 0 ([] :: h :: t) (h :: t) (.here fun k => by simp)).1
+
+theorem xe_child_iff {env d e} : XE ([] :: env) d e ↔ XE env d e := by
+  constructor
+  · rintro ⟨n, h⟩
+    have := toStatement_child n d env
+    rw [h] at this
+    generalize hr : toStatement n d env = x at this
+    obtain ⟨r, env'⟩ := x
+    simp only at this
+    subst this
+    exact .of_run hr
+  · rintro ⟨n, h⟩
+    have := toStatement_child n d env
+    rw [h] at this
+    generalize hr : toStatement n d ([] :: env) = x at this
+    obtain ⟨r, env'⟩ := x
+    simp only at this
+    subst this
+    exact .of_run hr
+
+theorem noDefs_child_iff {env bs} : NoDefs ([] :: env) bs ↔ NoDefs env bs := by
+  constructor
+  · intro h b hb m df env' hx
+    have := toStatement_child m b env
+    rw [hx] at this
+    generalize hr : toStatement m b ([] :: env) = x at this
+    obtain ⟨r, env''⟩ := x
+    simp only at this
+    subst this
+    exact h b hb m df env'' hr
+  · intro h b hb m df env' hx
+    have := toStatement_child m b env
+    rw [hx] at this
+    generalize hr : toStatement m b env = x at this
+    obtain ⟨r, env''⟩ := x
+    simp only at this
+    subst this
+    exact h b hb m df env'' hr
+
+theorem All2.imp {α β} {R S : α → β → Prop} (h : ∀ a b, R a b → S a b) {as bs} (hl : All2 R as bs) : All2 S as bs := by
+  induction hl with
+  | nil => exact .nil
+  | cons hab _ ih => exact .cons (h _ _ hab) ih
+
 /-- `(lambda formals body…)` whose body forms are expressions -/
 theorem XE.lambda_inv {env lam k formals body e} (hx : XE env lam e) (hl : IsList lam (k :: formals :: body))
-    (hk : isSym "lambda" k = true) (hnd : NoDefs ([] :: env) body) :
-    ∃ F bes loc, toFormals formals env = (.ok F, env) ∧ All2 (XE ([] :: env)) body bes ∧
+    (hk : isSym "lambda" k = true) (hnd : NoDefs env body) :
+    ∃ F bes loc, toFormals formals env = (.ok F, env) ∧ All2 (XE env) body bes ∧
       e = .lambda (.mk F [] bes) loc := by
+  replace hnd := noDefs_child_iff.mpr hnd
   obtain ⟨n, h⟩ := hx
   obtain ⟨dd, l, rfl, hdd⟩ := isList_cons_inv hl
   obtain ⟨dd', l', rfl, hdd'⟩ := isList_cons_inv hdd
@@ -515,12 +566,95 @@ theorem XE.lambda_inv {env lam k formals body e} (hx : XE env lam e) (hl : IsLis
         subst hrb
         obtain ⟨rfl, bes, hE, hall⟩ := toBody_nodefs body hbody hnd
         simp only [List.reverse_nil, List.nil_append] at hE
-        exact ⟨F, bodyE, l, hF, hE ▸ hall, h.1.symm⟩
+        exact ⟨F, bodyE, l, hF, (hE ▸ hall).imp (fun _ _ => xe_child_iff.mp), h.1.symm⟩
+
+/-- a body of exactly one form: that form is an expression -/
+theorem toBody_single {env : SynEnv} {b : Datum} {m D E env'} (h : toBody m [b] [] [] env = (.ok (D, E), env')) :
+    D = [] ∧ ∃ be, E = [be] ∧ XE env b be := by
+  cases m with
+  | zero => rw [toBody] at h; cases h
+  | succ m =>
+    rw [toBody] at h
+    obtain ⟨s, env₁, h₁, h₂⟩ := bind_ok h
+    cases s with
+    | expr e =>
+      have := ((keepAll m).stmt b).keep env _ env₁ h₁ trivial
+      subst this
+      simp only at h₂
+      cases m with
+      | zero => rw [toBody] at h₂; cases h₂
+      | succ m' =>
+        rw [toBody] at h₂
+        simp only [List.isEmpty_cons, Bool.false_eq_true, if_false] at h₂
+        cases h₂
+        exact ⟨rfl, e, rfl, ⟨m' + 1, h₁⟩⟩
+    | definition df =>
+      simp only [List.isEmpty_nil, if_true] at h₂
+      cases m with
+      | zero => rw [toBody] at h₂; cases h₂
+      | succ m' =>
+        rw [toBody] at h₂
+        simp only [List.isEmpty_nil, if_true] at h₂
+        cases h₂
+    | _ => cases h₂
+
+/-- `(lambda formals form)` with a single body form -/
+theorem XE.lambda_inv1 {env lam k formals b e} (hx : XE env lam e) (hl : IsList lam [k, formals, b])
+    (hk : isSym "lambda" k = true) :
+    ∃ F be loc, toFormals formals env = (.ok F, env) ∧ XE env b be ∧ e = .lambda (.mk F [] [be]) loc := by
+  obtain ⟨n, h⟩ := hx
+  obtain ⟨dd, l, rfl, hdd⟩ := isList_cons_inv hl
+  obtain ⟨dd', l', rfl, hdd'⟩ := isList_cons_inv hdd
+  obtain ⟨lk, rfl⟩ := isSym_inv hk
+  cases n with
+  | zero => rw [toStatement] at h; cases h
+  | succ m =>
+    rw [toStatement] at h
+    simp (config := {decide := true}) only [bind_run, lift, Macro.popProper, if_true, if_false, Datum.loc,
+      elems_of_isList hdd] at h
+    generalize hlam : toLambda m [formals, b] env = x at h
+    obtain ⟨r, s₁⟩ := x
+    cases r with
+    | error er => cases h
+    | ok lamv =>
+      simp only [XM.pure_run, Prod.mk.injEq, Except.ok.injEq, Statement.expr.injEq] at h
+      cases m with
+      | zero => rw [toLambda] at hlam; cases hlam
+      | succ m' =>
+        rw [toLambda] at hlam
+        simp only [List.head?_cons, List.drop_succ_cons, List.drop_zero, need] at hlam
+        obtain ⟨_, e₀, h₀, hlam₁⟩ := bind_ok hlam
+        cases h₀
+        clear hlam
+        obtain ⟨F, env₁, hF, hlam₂⟩ := bind_ok hlam₁
+        clear hlam₁
+        have := (KeepIf.toFormals (Q' := Tt) formals).keep _ _ _ hF trivial
+        subst this
+        obtain ⟨bx, env₂, hb, hlam₃⟩ := bind_ok hlam₂
+        cases hlam₃
+        obtain ⟨defs, bodyE⟩ := bx
+        simp only [inChild] at hb
+        generalize hbody : toBody m' [b] [] [] ([] :: env₁) = y at hb
+        obtain ⟨rb, sb⟩ := y
+        have hrb : rb = .ok (defs, bodyE) := by
+          cases sb <;> simp only [Prod.mk.injEq] at hb <;> exact hb.1
+        subst hrb
+        obtain ⟨rfl, be, rfl, hbe⟩ := toBody_single hbody
+        exact ⟨F, be, l, hF, xe_child_iff.mp hbe, h.1.symm⟩
+
+/-- `((lambda formals form) arg…)` with a single body form -/
+theorem XE.lambda_call_inv1 {env d lam args k formals b e} (hx : XE env d e) (hd : IsList d (lam :: args))
+    (hl : IsList lam [k, formals, b]) (hk : isSym "lambda" k = true) :
+    ∃ F be aes l₁ l₂, toFormals formals env = (.ok F, env) ∧ XE env b be ∧
+      All2 (XE env) args aes ∧ e = .call (.lambda (.mk F [] [be]) l₁) aes l₂ := by
+  obtain ⟨fe, aes, l₂, hfe, haes, rfl⟩ := hx.call_inv hd (ordinary_of_list hl)
+  obtain ⟨F, be, l₁, hF, hbe, rfl⟩ := hfe.lambda_inv1 hl hk
+  exact ⟨F, be, aes, l₁, l₂, hF, hbe, haes, rfl⟩
 
 /-- the application of a lambda expression `((lambda formals body…) arg…)` -/
 theorem XE.lambda_call_inv {env d lam args k formals body e} (hx : XE env d e) (hd : IsList d (lam :: args))
-    (hl : IsList lam (k :: formals :: body)) (hk : isSym "lambda" k = true) (hnd : NoDefs ([] :: env) body) :
-    ∃ F bes aes l₁ l₂, toFormals formals env = (.ok F, env) ∧ All2 (XE ([] :: env)) body bes ∧
+    (hl : IsList lam (k :: formals :: body)) (hk : isSym "lambda" k = true) (hnd : NoDefs env body) :
+    ∃ F bes aes l₁ l₂, toFormals formals env = (.ok F, env) ∧ All2 (XE env) body bes ∧
       All2 (XE env) args aes ∧ e = .call (.lambda (.mk F [] bes) l₁) aes l₂ := by
   obtain ⟨fe, aes, l₂, hfe, haes, rfl⟩ := hx.call_inv hd (ordinary_of_list hl)
   obtain ⟨F, bes, l₁, hF, hbes, rfl⟩ := hfe.lambda_inv hl hk hnd
@@ -608,6 +742,31 @@ theorem Means.not_call {σ ρ te tv σ₁ l l'} (hnot : σ.lookup ρ "not" = som
     rename_i b; cases b <;> rfl
   have := MeansApply.builtin (σ := σ₁) (b := .not) (by decide) rfl h
   rwa [show (Eval.enter σ₁).erase = σ₁.erase from rfl, ht.erased] at this
+
+/-- a template-built `(let ((n t)) b)` with one binding and one body form: the application
+`((lambda (n) b) t)` -/
+theorem XE.let1_inv {env loc} {n t b : Datum} {e} (hstd : StdEnv env)
+    (hx : XE env (C05.L loc [C05.S loc "let", C05.L loc [C05.L loc [n, t]], b]) e) :
+    ∃ te be l₁ l₂, XE env t te ∧ XE env b be ∧ e = .call (.lambda (.mk ⟨[symName n], none⟩ [] [be]) l₁) [te] l₂ := by
+  rw [built_eq] at hx
+  have h₁ := hx.expand_inv hstd (by decide) (fun fuel hf => at_loc (C05.let_shape
+    (bds := [C05.L loc [n, t]]) (nvs := [(n, t)]) (bodies := [b])
+    (isList_withLoc loc (isList_ofList none _)) (isList_ofList _ _) (.cons (isList_ofList _ _) .nil)
+    (by simp) (by simp) hf))
+  obtain ⟨F, be, aes, l₁, l₂, hF, hbe, haes, rfl⟩ :=
+    h₁.lambda_call_inv1 (isList_ofList _ _) (isList_ofList _ _) rfl
+  have := toFormals_list hF (isList_ofList loc [n])
+  subst this
+  cases haes with
+  | cons hte t' =>
+    cases t'
+    exact ⟨_, be, l₁, l₂, hte, hbe, rfl⟩
+
+/-- … evaluates the initialiser in the current frame and the body in a fresh child frame binding `nm` -/
+theorem Means.let1 {σ ρ nm te be l₁ l₂ tv σ₁ v τ} (ht : Means σ ρ te tv σ₁)
+    (hb : Means (σ₁.pushFrame ρ [(nm, tv)]) σ₁.frames.size be v τ) :
+    Means σ ρ (.call (.lambda (.mk ⟨[nm], none⟩ [] [be]) l₁) [te] l₂) v τ :=
+  Means.lambda_call (MeansList.one ht) (.one hb) rfl
 
 /-- the syntax environment has the bundled derived forms, and the names the templates use as
 procedures (`not`, `memv`, `null?`) are not keywords of macros -/
